@@ -484,6 +484,9 @@ class GenericPlainRegistry(Generic[QuantityT, UnitT], metaclass=RegistryMeta):
         else:
             self._helper_dispatch_adder(definition)
 
+        self._rebuild_cache_if_redefined()
+
+    def _rebuild_cache_if_redefined(self) -> None:
         if self._redefined_after_init:
             self._redefined_after_init = False
             # What was computed from the previous definition (root units, factors,
@@ -556,6 +559,9 @@ class GenericPlainRegistry(Generic[QuantityT, UnitT], metaclass=RegistryMeta):
                 logger.warning(f"Redefining '{key}' ({type(value)})")
             if self._initialized:
                 self._redefined_after_init = True
+        elif self._initialized and target_dict is self._units:
+            # a string that was parsed before (say, as prefix + unit) is now a name
+            self._cache.parse_unit.pop(key, None)
 
         target_dict[key] = value
         if casei_target_dict is not None:
@@ -616,6 +622,8 @@ class GenericPlainRegistry(Generic[QuantityT, UnitT], metaclass=RegistryMeta):
 
         for definition in self._def_parser.iter_parsed_project(parsed_project):
             self._helper_dispatch_adder(definition)
+
+        self._rebuild_cache_if_redefined()
 
         return parsed_project
 
